@@ -37,6 +37,43 @@ SW = "rg::search::SearchWorker"
 SC = "rg::search::Config"
 
 
+
+def warn_rule(ctx, r):
+    """StandardImpl::write_binary_message: with quit-on-binary and match_count == 0 the warning must still be reachable (it is
+    the bytes written for this file that decide): context and --passthru lines are printed before the line with the NUL."""
+    facts = ctx.facts
+    f = facts.fn("grep_printer::standard::StandardImpl::write_binary_message")
+    eb = ExprBuilder(f)
+    writes = [c for c in f.calls() if c.path.endswith("StandardImpl::write")]
+    zero_edges = []
+    for bb, te, fe, e in cond_switches(f, lambda e: e.k == "bin" and e[1] in ("Eq", "Ne", "Gt", "Lt") and
+                                       any(x.k == "field" and x[3] == "match_count" for x in walk(e)) and
+                                       any(y.k == "const" and y[1] == 0 for y in (e[2], e[3])), eb):
+        # the edge taken when the count is zero; the other one is removed
+        if e[1] == "Eq":
+            zero_edges.append(fe)
+        elif e[1] == "Ne":
+            zero_edges.append(te)
+        elif e[1] == "Gt":
+            zero_edges.append(te if any(x.k == "field" for x in walk(e[2])) else fe)
+        else:
+            zero_edges.append(te if any(x.k == "field" for x in walk(e[3])) else fe)
+    if not writes or not zero_edges:
+        r.bad("warn|printed", "anchor-missing: write_binary_message no longer tests match_count / writes a message", fn=f)
+        return
+
+    def model(call, argv):
+        if call.path.endswith("BinaryDetection::quit_byte"):
+            return V("Some", None)
+        return None
+    sx = Sccp(f, call_model=model, removed_edges=set(zero_edges)).run([(0, {})])
+    if any(c.bb in sx.exec_blocks for c in writes):
+        r.ok("warn|printed", "quit mode ∧ match_count == 0: the warning is still written when bytes of this file were", fn=f)
+    else:
+        r.bad("warn|printed", "write_binary_message writes nothing whenever match_count == 0: a traversed file whose context or "
+              "--passthru lines were already printed is cut off at the NUL without the warning (`rg --passthru foo dir` prints "
+              "`dir/g-xy` and stops silently)", fn=f, construct="warning")
+
 def run(ctx):
     facts = ctx.facts
     with ctx.rule("C14.LINES", "every delivered line passes detect_binary under self.binary (shared with C03.DELIVER)", floor=2,
@@ -147,6 +184,10 @@ def run(ctx):
     with ctx.rule("C14.PRINT", "printers: no line output after binary data in convert mode; notice iff offset; begin resets",
                   floor=8, kind="GUARD") as r:
         print_rule(ctx, r)
+
+    with ctx.rule("C14.WARN", "a traversed file that is cut off at binary data after lines of it were printed gets the warning, "
+                  "whether those lines were matches or context", floor=1, kind="A3") as r:
+        warn_rule(ctx, r)
 
     with ctx.rule("C14.MODE", "detection-mode tables; explicit never quit; installed before any search", floor=10,
                   exhaustive=True, kind="TRUTH/DOM/NOFLOW") as r:
